@@ -190,6 +190,34 @@ func runC18(c *Ctx) {
 			c.Ob("C18-D5", "sio.eventHandlerStore.off/clears-"+m, fn.Pos(), !skip, "with no handler given a path returns without delete("+m+", eventName): "+trailString(p, trail))
 		}
 	}
+	// the no-handler branch must be keyed on emptiness: exported Off methods forward a (non-nil) slice
+	for _, fnn := range []string{"handlerStore.off", "eventHandlerStore.off"} {
+		fn := p.Fn("sio", fnn)
+		par := fn.Params[len(fn.Params)-1]
+		nilTests := findInstrs(fn, func(in ssa.Instruction) bool {
+			b, ok := in.(*ssa.BinOp)
+			if !ok || (b.Op != token.EQL && b.Op != token.NEQ) {
+				return false
+			}
+			k, isC := b.Y.(*ssa.Const)
+			return Term(b.X) == par.Name() && isC && k.Value == nil
+		})
+		nonNilCallers := 0
+		for _, caller := range p.SrcFuncs() {
+			for _, cs := range Calls(caller) {
+				if f := cs.Common().StaticCallee(); f != nil && originOf(f) == fn {
+					if _, isMake := cs.Common().Args[len(cs.Common().Args)-1].(*ssa.MakeSlice); isMake {
+						nonNilCallers++
+					}
+				}
+			}
+		}
+		pos := fn.Pos()
+		if len(nilTests) > 0 {
+			pos = nilTests[0].Pos()
+		}
+		c.Ob("C18-D5", "sio."+fnn+"/emptiness-not-nilness", pos, len(nilTests) == 0 || nonNilCallers == 0, fmt.Sprintf("off() tests its variadic parameter against nil, but %d caller(s) forward a made (non-nil, possibly empty) slice: Off with no handler would remove nothing", nonNilCallers))
+	}
 	// offAll clears everything
 	{
 		fn := p.Fn("sio", "handlerStore.offAll")
